@@ -14,16 +14,35 @@ Full statement (FALSE on the pinned tree, witness `parse_total_false` below):
 
 What is proved instead:
 * `parse_panic_sites`   — of the 14 panic sites of query.rs / directives.rs, only three can fire,
-                          all inside `try_get_query_root`; each with its exact condition
-                          (`parse_panics_f6_iff`, `parse_panics_empty_map_iff`,
-                          `parse_panics_empty_selection_iff`);
+                          all inside `try_get_query_root`, each with its condition; F-6 exactly:
+                          `parse_panics_f6_iff`;
 * two of the three need an `ExecutableDocument` that the text grammar cannot produce
   (`selection_set = "{" selection+ "}"`, and a `Multiple` map is created on its first insertion):
   they are excluded by `ParserProducible`;
 * the third is the defect F-6 (a document with exactly two named operations):
   `parse_total_partial : ParserProducible doc → NoKnownParseTrigger doc → no panic`.
+
+Stage 2 (second part of the file): `frontend::parse` minus the text parser, `TF.FE.compile S doc`
+= `parse_document`, `make_ir_for_query` (validation.rs, mod.rs, filters.rs, tags.rs, outputs.rs,
+util.rs) and the `IndexedQuery` conversion's `get_output_type`, against a schema view `S`.
+
+Full statement (FALSE on the pinned tree, nine witness theorems below):
+
+    theorem frontend_total : ValidSchemaView S → ParserProducible doc → ∀ s, compile S doc ≠ .panic s
+
+What is proved instead:
+* `frontend_panic_sites` — of the 61 modelled panic sites only the nine of `KnownSite` can fire
+  (F-6, F-7, F-8, F-12, N-1 … N-4, N-6); in particular every `unwrap/expect/assert!/index` of
+  `tags.rs`, `outputs.rs`, `util.rs` (the `ComponentPath` / `TagHandler` / `OutputHandler` stack
+  discipline, including the stale entries `make_fold`'s early `?` return leaves behind: F-13 is
+  not a defect), the path bookkeeping and the asserts of `validation.rs`, and all but one `unwrap`
+  of `filters.rs` are unreachable;
+* `frontend_total_partial` — no panic at all outside the known defect classes;
+* each class has a witness (`*_witness`), and N-5 (a schema that declares an edge parameter twice,
+  accepted by `Schema::new`) is a witness that `ValidSchemaView`'s `paramsDistinct` clause is
+  needed (`paramDuplicate_witness`).
 -/
-import TrustfallModel.Proofs.QueryParse
+import TrustfallModel.Proofs.FrontendTop
 
 namespace TF.C10
 open TF.FE
@@ -154,6 +173,174 @@ theorem parse_total_partial {doc : Doc} (hp : ParserProducible doc) (hk : NoKnow
 example : ParserProducible ⟨.single opZero, []⟩ ∧ NoKnownParseTrigger ⟨.single opZero, []⟩ := by decide
 example : ParserProducible docTwoOperations ∧ ¬ NoKnownParseTrigger docTwoOperations := by decide
 
+/-! ## Stage 2: the frontend proper -/
+
+/-- The guard of the partial theorem: the document does not run into one of the known defect
+classes.  F-6 and N-1 are delimited syntactically (`parse_panics_f6_iff`,
+`frontend_panics_n1_only_if`); the other classes are delimited by the model's own panic site —
+the decidable statement "`compile S doc` does not panic at that site" — which the harness
+replays against the real code for every generated document. -/
+def NoKnownTrigger (S : SchemaView) (doc : Doc) : Prop :=
+  ∀ s, KnownSite s → compile S doc ≠ .panic s
+
+instance (S : SchemaView) (doc : Doc) : Decidable (NoKnownTrigger S doc) :=
+  match h : compile S doc with
+  | .panic s =>
+    if hk : KnownSite s then isFalse (fun hn => hn s hk h)
+    else isTrue (fun s' hk' h' => by rw [h] at h'; cases h'; exact hk hk')
+  | .ok _ => isTrue (fun s' _ h' => by rw [h] at h'; cases h')
+  | .err _ => isTrue (fun s' _ h' => by rw [h] at h'; cases h')
+
+/-- Of all modelled panic sites, only those of `KnownSite` can fire on a document produced by
+the text parser, against a schema satisfying `ValidSchemaView`. -/
+theorem frontend_panic_sites {S : SchemaView} (hS : ValidSchemaView S) {doc : Doc}
+    (hp : ParserProducible doc) {s : Site} (h : compile S doc = .panic s) : KnownSite s := by
+  rcases compile_panic_known hS h with hk | hs | hs
+  · exact hk
+  · subst hs
+    exfalso
+    have hparse : parseDocument doc = .panic .opsMultipleEmpty := by
+      unfold compile at h
+      cases hpd : parseDocument doc with
+      | panic s' => rw [hpd] at h; cases h; rfl
+      | err e => rw [hpd] at h; cases h
+      | ok q =>
+        rw [hpd] at h
+        have := (makeIrForQuery_sat hS (parseDocument_wf hpd)).panic_site h
+        exact absurd this.1 (by decide +kernel)
+    exact parse_total_partial hp (fun hf6 => by
+      have := (parse_panics_f6_iff doc).mpr hf6
+      rw [hparse] at this; cases this) _ hparse
+  · subst hs
+    exfalso
+    have hparse : parseDocument doc = .panic .rootItemsIndex := by
+      unfold compile at h
+      cases hpd : parseDocument doc with
+      | panic s' => rw [hpd] at h; cases h; rfl
+      | err e => rw [hpd] at h; cases h
+      | ok q =>
+        rw [hpd] at h
+        have := (makeIrForQuery_sat hS (parseDocument_wf hpd)).panic_site h
+        exact absurd this.1 (by decide +kernel)
+    exact parse_total_partial hp (fun hf6 => by
+      have := (parse_panics_f6_iff doc).mpr hf6
+      rw [hparse] at this; cases this) _ hparse
+
+/-- The frontend is total outside the known defect classes. -/
+theorem frontend_total_partial {S : SchemaView} (hS : ValidSchemaView S) {doc : Doc}
+    (hp : ParserProducible doc) (hk : NoKnownTrigger S doc) : ∀ s, compile S doc ≠ .panic s :=
+  fun s h => hk s (frontend_panic_sites hS hp h) h
+
+/-- N-1 is reached only through a root field called `__typename`. -/
+theorem frontend_panics_n1_only_if {S : SchemaView} (hS : ValidSchemaView S) {doc : Doc}
+    (h : compile S doc = .panic .rootEdgeLookup) :
+    ∃ q, parseDocument doc = .ok q ∧ q.rootField.name = TYPENAME :=
+  compile_rootEdgeLookup hS h
+
+/-! ### Witnesses (each is in `corpus/C10.cases` as text and replayed against the real code) -/
+
+def tyInt : FTy := ⟨"Int", true, []⟩
+
+/-- `type Root { A(max: Int): A }  type A { value: Int  flag: Boolean  deep: [..30 levels..Int]
+next: A }`. -/
+def miniSchema : SchemaView := ⟨"Root", [], [
+  ⟨"Root", false, [], [⟨"A", ⟨"A", true, []⟩, [⟨"max", tyInt, false⟩]⟩]⟩,
+  ⟨"A", false, [], [⟨"value", tyInt, []⟩, ⟨"flag", ⟨"Boolean", true, []⟩, []⟩,
+     ⟨"deep", ⟨"Int", true, List.replicate 30 true⟩, []⟩, ⟨"next", ⟨"A", true, []⟩, []⟩]⟩]⟩
+
+theorem miniSchema_valid : ValidSchemaView miniSchema := validSchemaViewB_sound (by decide +kernel)
+
+def fld (name : String) (dirs : List Directive := []) (sels : List Selection := [])
+    (args : List Arg := []) : Selection := .field ⟨none, name, args, dirs⟩ sels
+def single (root : Selection) : Doc := ⟨.single ⟨.query, 0, [], [root]⟩, []⟩
+def dOutput : Directive := ⟨"output", []⟩
+def dOutputNamed (n : String) : Directive := ⟨"output", [⟨"name", .str n⟩]⟩
+def dFold : Directive := ⟨"fold", []⟩
+def dCount : Directive := ⟨"transform", [⟨"op", .str "count"⟩]⟩
+def dFilter (op v : String) : Directive := ⟨"filter", [⟨"op", .str op⟩, ⟨"value", .list [.str v]⟩]⟩
+/-- `next @fold { next @fold { … s … } }`, `k` levels. -/
+def nestFolds : Nat → Selection → Selection
+  | 0, s => s
+  | k + 1, s => fld "next" [dFold] [nestFolds k s]
+
+/-- **F-7** `{ A { next @fold @transform(op: "count") @transform(op: "count") } }`. -/
+theorem f7_witness :
+    compile miniSchema (single (fld "A" [] [fld "next" [dFold, dCount, dCount]])) = .panic .retransform :=
+  Res.cls_eq_panic.mp (by decide +kernel)
+
+/-- **F-8** `{ A { value { ... on A { __typename } } } }`. -/
+theorem f8_witness :
+    compile miniSchema (single (fld "A" [] [fld "value" [] [.inline (some "A") [] [fld "__typename"]]]))
+      = .panic .coercePropertyIndex :=
+  Res.cls_eq_panic.mp (by decide +kernel)
+
+/-- **F-12** `{ A { flag @filter(op: "<", value: ["$x"]) } }` (`flag: Boolean`). -/
+theorem f12_witness :
+    compile miniSchema (single (fld "A" [] [fld "flag" [dFilter "<" "$x"]])) = .panic .asTagUnwrap :=
+  Res.cls_eq_panic.mp (by decide +kernel)
+
+/-- … but not with `=`: the defect needs an ordering operator. -/
+example : (compile miniSchema (single (fld "A" [] [fld "flag" [dFilter "=" "$x", dOutput]]))).cls = .ok := by
+  decide +kernel
+
+/-- **N-1** `{ __typename }`. -/
+theorem n1_witness : compile miniSchema (single (fld "__typename")) = .panic .rootEdgeLookup :=
+  Res.cls_eq_panic.mp (by decide +kernel)
+
+/-- **N-2** `{ A(max: FOO) }`. -/
+theorem n2_witness :
+    compile miniSchema (single (fld "A" [] [] [⟨"max", .enum "FOO"⟩])) = .panic .enumArgument :=
+  Res.cls_eq_panic.mp (by decide +kernel)
+
+/-- **N-3** `{ A { value @output(name: "a") next @fold @transform(op: "count") @output(name: "a") } }`. -/
+theorem n3_witness :
+    compile miniSchema (single (fld "A" [] [fld "value" [dOutputNamed "a"],
+      fld "next" [dFold, dCount, dOutputNamed "a"]])) = .panic .dupOutputVertexIndex :=
+  Res.cls_eq_panic.mp (by decide +kernel)
+
+/-- … while two *property* outputs under one name are reported as the error they are. -/
+example : (compile miniSchema (single (fld "A" [] [fld "value" [dOutputNamed "a"],
+    fld "flag" [dOutputNamed "a"]]))).cls = .err (.frontend [.MultipleOutputsWithSameName]) := by decide +kernel
+
+/-- **N-4** `value @output` under 31 nested `@fold`s. -/
+theorem n4_witness :
+    compile miniSchema (single (fld "A" [] [nestFolds 31 (fld "value" [dOutput])]))
+      = .panic .outputListDepth :=
+  Res.cls_eq_panic.mp (by decide +kernel)
+
+/-- … 30 are accepted. -/
+example : (compile miniSchema (single (fld "A" [] [nestFolds 30 (fld "value" [dOutput])]))).cls = .ok := by
+  decide +kernel
+
+/-- **N-6** `{ A { deep @filter(op: "one_of", value: ["$x"]) } }` (`deep` has 30 list levels). -/
+theorem n6_witness :
+    compile miniSchema (single (fld "A" [] [fld "deep" [dFilter "one_of" "$x"]])) = .panic .oneOfListDepth :=
+  Res.cls_eq_panic.mp (by decide +kernel)
+
+/-- The full statement is false. -/
+theorem frontend_total_false :
+    ¬ ∀ (S : SchemaView) (doc : Doc), ValidSchemaView S → ParserProducible doc →
+      ∀ s, compile S doc ≠ .panic s :=
+  fun h => h miniSchema _ miniSchema_valid (by decide +kernel) _ f7_witness
+
+/-- **N-5**: `type Root { A(x: Int, x: Int): A }  type A { v: Int }` is accepted by `Schema::new`
+but is not a `ValidSchemaView`; every query through `A` panics at mod.rs:195. -/
+def dupParamSchema : SchemaView := ⟨"Root", [], [
+  ⟨"Root", false, [], [⟨"A", ⟨"A", true, []⟩, [⟨"x", tyInt, false⟩, ⟨"x", tyInt, false⟩]⟩]⟩,
+  ⟨"A", false, [], [⟨"v", tyInt, []⟩]⟩]⟩
+
+theorem paramDuplicate_witness :
+    compile dupParamSchema (single (fld "A" [] [fld "v" [dOutput]])) = .panic .paramDuplicate ∧
+    validSchemaViewB dupParamSchema = false :=
+  ⟨Res.cls_eq_panic.mp (by decide +kernel), by decide⟩
+
+/-! Non-vacuity: the guards hold of ordinary queries, and fail exactly on the witnesses. -/
+example : NoKnownTrigger miniSchema (single (fld "A" [] [fld "value" [dOutput, dFilter "<" "$x"],
+    fld "next" [dFold, dCount, dOutputNamed "n"] [fld "flag" [dFilter "=" "$f"]]])) := by decide +kernel
+example : (compile miniSchema (single (fld "A" [] [fld "value" [dOutput, dFilter "<" "$x"],
+    fld "next" [dFold, dCount, dOutputNamed "n"] [fld "flag" [dFilter "=" "$f"]]]))).cls = .ok := by decide +kernel
+example : ¬ NoKnownTrigger miniSchema (single (fld "__typename")) := by decide +kernel
+
 end TF.C10
 
 #print axioms TF.C10.f6_witness
@@ -161,3 +348,16 @@ end TF.C10
 #print axioms TF.C10.parse_panic_sites
 #print axioms TF.C10.parse_panics_f6_iff
 #print axioms TF.C10.parse_total_partial
+#print axioms TF.C10.frontend_panic_sites
+#print axioms TF.C10.frontend_total_partial
+#print axioms TF.C10.frontend_panics_n1_only_if
+#print axioms TF.C10.f7_witness
+#print axioms TF.C10.f8_witness
+#print axioms TF.C10.f12_witness
+#print axioms TF.C10.n1_witness
+#print axioms TF.C10.n2_witness
+#print axioms TF.C10.n3_witness
+#print axioms TF.C10.n4_witness
+#print axioms TF.C10.n6_witness
+#print axioms TF.C10.frontend_total_false
+#print axioms TF.C10.paramDuplicate_witness
